@@ -262,6 +262,30 @@ func (s *server) ModifyColumnFamilies(ctx context.Context, req *btapb.ModifyColu
 	defer tbl.mu.Unlock()
 	cfs := tbl.def.ColumnFamilies
 
+	// Check every modification against a scratch copy of the family set first, so
+	// that the request is applied entirely or not at all.
+	known := make(map[string]bool, len(cfs))
+	for id := range cfs {
+		known[id] = true
+	}
+	for _, mod := range req.Modifications {
+		if mod.GetCreate() != nil {
+			if known[mod.Id] {
+				return nil, status.Errorf(codes.AlreadyExists, "family %q already exists", mod.Id)
+			}
+			known[mod.Id] = true
+		} else if mod.GetDrop() {
+			if !known[mod.Id] {
+				return nil, fmt.Errorf("can't delete unknown family %q", mod.Id)
+			}
+			delete(known, mod.Id)
+		} else if mod.GetUpdate() != nil {
+			if !known[mod.Id] {
+				return nil, fmt.Errorf("no such family %q", mod.Id)
+			}
+		}
+	}
+
 	for _, mod := range req.Modifications {
 		if create := mod.GetCreate(); create != nil {
 			if _, ok := cfs[mod.Id]; ok {
